@@ -180,12 +180,14 @@ type (
 	}
 	RecEmb2 struct{ R *RecEmb }
 	// unsupported kinds at depth
-	BadFunc  struct{ F func() }
-	BadChan  struct{ C []chan int }
-	BadCplx  struct{ M map[string]complex128 }
-	BadKey   struct{ M map[int]string }
-	BadUPtr  struct{ P unsafe.Pointer }
-	BadDeep  struct{ A []map[string]*struct{ F func(int) } }
+	BadFunc struct{ F func() }
+	BadChan struct{ C []chan int }
+	BadCplx struct{ M map[string]complex128 }
+	BadKey  struct{ M map[int]string }
+	BadUPtr struct{ P unsafe.Pointer }
+	BadDeep struct {
+		A []map[string]*struct{ F func(int) }
+	}
 	BadNamed map[int]string
 	BadTwice struct {
 		A BadNamed
@@ -235,8 +237,10 @@ type (
 		ID int `json:"id"`
 	}
 	MidOver struct {
+		Before int `json:"before"`
 		Base
-		After string `json:"after"`
+		After string  `json:"after"`
+		Opt   float64 `json:"opt,omitempty"`
 	}
 	TopOver struct {
 		MidOver
